@@ -186,7 +186,9 @@ class LHSSampler(PointSampler):
         sample_points = None
         for i in range(num_of_params):
             ith_params = params[i,] if len(params) > 0 else Points.empty()
+            # transformed domains return their box as one row per parameter row
             bounding_box = self.domain.bounding_box(ith_params, device=device)
+            bounding_box = bounding_box.reshape(-1)
             lhs_in_box = self._create_lhs_in_bounding_box(bounding_box, device)
             new_points = self._check_lhs_inside(lhs_in_box, ith_params)
             final_points = self._append_random_points(new_points, ith_params)
